@@ -883,3 +883,610 @@ Definition rest_render (d : rdata) : afile :=
        {| d_name := cn ++ ".ShootRest"; d_kind := KMethod cn; d_doc := true; d_tail := true; d_needs := []; d_toks := [cn] |};
        {| d_name := "init"; d_kind := KFunc; d_doc := false; d_tail := false;
           d_needs := ["github.com/lopolopen/shoot"; "net/http"; "time"]; d_toks := [rd_type d; cn] |} ]).
+
+(* ------------------------------------------------------------------ *)
+(* `map`                                                               *)
+
+Record mfield := {
+  m_name : string; m_path : list string; m_ty : string; m_depth : nat; m_backing : string;
+  m_isget : bool; m_isset : bool;
+  m_target : option string;         (* name of the Field object of the other side it points to *)
+  m_canassign : bool; m_isconv : bool; m_type : string; m_func : string; m_zero : string
+}.
+Definition mf0 (n : string) (path : list string) (ty : string) (depth : nat) : mfield :=
+  {| m_name := n; m_path := path; m_ty := ty; m_depth := depth; m_backing := ""; m_isget := false; m_isset := false;
+     m_target := None; m_canassign := false; m_isconv := false; m_type := ""; m_func := ""; m_zero := "" |}.
+Definition mf_set_target (f : mfield) (t : string) : mfield :=
+  {| m_name := m_name f; m_path := m_path f; m_ty := m_ty f; m_depth := m_depth f; m_backing := m_backing f;
+     m_isget := m_isget f; m_isset := m_isset f; m_target := Some t; m_canassign := m_canassign f; m_isconv := m_isconv f;
+     m_type := m_type f; m_func := m_func f; m_zero := m_zero f |}.
+Definition mf_set_assign (f : mfield) : mfield :=
+  {| m_name := m_name f; m_path := m_path f; m_ty := m_ty f; m_depth := m_depth f; m_backing := m_backing f;
+     m_isget := m_isget f; m_isset := m_isset f; m_target := m_target f; m_canassign := true; m_isconv := m_isconv f;
+     m_type := m_type f; m_func := m_func f; m_zero := m_zero f |}.
+Definition mf_set_conv (f : mfield) (ty : string) : mfield :=
+  {| m_name := m_name f; m_path := m_path f; m_ty := m_ty f; m_depth := m_depth f; m_backing := m_backing f;
+     m_isget := m_isget f; m_isset := m_isset f; m_target := m_target f; m_canassign := m_canassign f; m_isconv := true;
+     m_type := ty; m_func := m_func f; m_zero := m_zero f |}.
+Definition mf_set_func (f : mfield) (fn : string) : mfield :=
+  {| m_name := m_name f; m_path := m_path f; m_ty := m_ty f; m_depth := m_depth f; m_backing := m_backing f;
+     m_isget := m_isget f; m_isset := m_isset f; m_target := m_target f; m_canassign := m_canassign f; m_isconv := m_isconv f;
+     m_type := m_type f; m_func := fn; m_zero := m_zero f |}.
+Definition mf_set_zero (f : mfield) (z : string) : mfield :=
+  {| m_name := m_name f; m_path := m_path f; m_ty := m_ty f; m_depth := m_depth f; m_backing := m_backing f;
+     m_isget := m_isget f; m_isset := m_isset f; m_target := m_target f; m_canassign := m_canassign f; m_isconv := m_isconv f;
+     m_type := m_type f; m_func := m_func f; m_zero := z |}.
+Definition mf_replace (f : mfield) (path : list string) (ty : string) (depth : nat) : mfield :=
+  {| m_name := m_name f; m_path := path; m_ty := ty; m_depth := depth; m_backing := m_backing f;
+     m_isget := m_isget f; m_isset := m_isset f; m_target := m_target f; m_canassign := m_canassign f; m_isconv := m_isconv f;
+     m_type := m_type f; m_func := m_func f; m_zero := m_zero f |}.
+
+Definition mget (n : string) (l : list mfield) : option mfield := find (fun f => m_name f =? n) l.
+Definition mupd (n : string) (g : mfield -> mfield) (l : list mfield) : list mfield :=
+  map (fun f => if m_name f =? n then g f else f) l.
+Definition matching_name (f : mfield) : string := if m_backing f =? "" then m_name f else m_backing f.
+Definition pkey (p : list string) : string := join "." p.
+
+(* fields.go appendOrReplace *)
+Definition append_or_replace (fs : list mfield) (f : mfield) : list mfield :=
+  match mget (m_name f) fs with
+  | Some g => if Nat.ltb (m_depth f) (m_depth g) then mupd (m_name f) (fun g => mf_replace g (m_path f) (m_ty f) (m_depth f)) fs else fs
+  | None => fs +++ [f]
+  end.
+
+Definition sty (f : sfield) : string := (if sf_ptr f then "*" else "") ++ sf_ty f.
+
+(* fields.go expandIfStruct / extractStructFields; acc = (fields, ptrTypeMap) *)
+Fixpoint mexpand (fuel : nat) (v : view) (qual : string) (pre : list string) (depth : nat) (tname : string) (ptr : bool)
+  (acc : list mfield * list (string * string)) : list mfield * list (string * string) :=
+  match fuel with
+  | O => acc
+  | S fu =>
+      match find_struct v tname with
+      | None => acc
+      | Some (_, _, s) =>
+          let acc1 := if ptr then (fst acc, upsert (pkey pre) (qual ++ tname) (snd acc)) else acc in
+          fold_left (fun a it =>
+                       match it with
+                       | IEmbed n p _ => mexpand fu v qual (pre +++ [n]) (S depth) n p a
+                       | IField f => (append_or_replace (fst a) (mf0 (sf_name f) (pre +++ [sf_name f]) (sty f) depth), snd a)
+                       end) (ss_items s) acc1
+      end
+  end.
+
+(* fields.go parseFields: (exported, unexported, tagMap, ptrTypeMap) of type T in view v; None = no such struct *)
+Definition mparse_fields (v : view) (qual : string) (T : string) (with_tags : bool)
+  : option (list mfield * list mfield * list (string * string) * list (string * string)) :=
+  match find_struct v T with
+  | None => None
+  | Some (_, _, s) =>
+      let '(fs, tags, ptrs) :=
+        fold_left (fun a it =>
+                     let '(fs, tags, ptrs) := a in
+                     match it with
+                     | IEmbed n p _ =>
+                         let '(fs', ptrs') := mexpand (S (List.length (hand_decls v))) v qual [n] 1 n p (fs, ptrs) in
+                         (fs', tags, ptrs')
+                     | IField f =>
+                         if sf_maptag f =? "-" then a
+                         else
+                           let tags' := if negb (sf_maptag f =? "") && with_tags
+                                        then upsert (pascal (sf_name f)) (pascal (sf_maptag f)) tags else tags in
+                           (append_or_replace fs (mf0 (sf_name f) [sf_name f] (sty f) 0), tags', ptrs)
+                     end) (ss_items s) ([], [], []) in
+      Some (filter (fun f => is_exported (m_name f)) fs, filter (fun f => negb (is_exported (m_name f))) fs, tags, ptrs)
+  end.
+
+Record mdata := {
+  md_cmd : string; md_type : string; md_dest : string; md_qdest : string; md_destpkg : string;
+  md_toonly : bool; md_fromonly : bool;
+  md_srcctor : list mfield; md_destctor : list mfield;
+  md_srcfields : list mfield; md_destfields : list mfield;
+  md_srcptrmap : list (string * string); md_srcptrlist : list string;
+  md_destptrmap : list (string * string); md_destptrlist : list string;
+  md_srcread : list (string * string); md_destread : list (string * string)
+}.
+
+(* mapper.Generator: every field that is not a flag or a loaded package *)
+Record mstate := {
+  ms_data : option mdata;
+  ms_exp : list mfield; ms_unexp : list mfield; ms_dexp : list mfield; ms_dunexp : list mfield;
+  ms_gsm : list (string * string * bool); ms_dgsm : list (string * string * bool);      (* (name, type, is setter) *)
+  ms_sptr : list (string * string); ms_dptr : list (string * string);                   (* srcPtrTypeMap destPtrTypeMap *)
+  ms_spaths : list (string * list string); ms_dpaths : list (string * list string);     (* srcPathsMap destPathsMap *)
+  ms_funcs : list (string * string * string);                                           (* mappingFuncList *)
+  ms_wsrc : list string; ms_wdest : list string;                                        (* writeSrcSet writeDestSet *)
+  ms_rsm : list (string * string); ms_wsm : list (string * string);                     (* readSrcMap writeSrcMap *)
+  ms_tags : list (string * string);                                                     (* srcTagMap *)
+  ms_sctor : list mfield; ms_dctor : list mfield                                        (* srcCtorParams destCtorParams *)
+}.
+Definition mstate0 : mstate :=
+  {| ms_data := None; ms_exp := []; ms_unexp := []; ms_dexp := []; ms_dunexp := []; ms_gsm := []; ms_dgsm := [];
+     ms_sptr := []; ms_dptr := []; ms_spaths := []; ms_dpaths := []; ms_funcs := []; ms_wsrc := []; ms_wdest := [];
+     ms_rsm := []; ms_wsm := []; ms_tags := []; ms_sctor := []; ms_dctor := [] |}.
+
+(* go/types on the palette of this grammar *)
+Definition ints : list string := ["int"; "int8"; "int16"; "int32"; "int64"; "uint"; "uint8"; "uint16"; "uint32"; "uint64"].
+Definition fixed_ints : list string := ["int8"; "int16"; "int32"; "int64"; "uint8"; "uint16"; "uint32"; "uint64"].
+Definition numeric (t : string) : bool := smem t ints || smem t ["float32"; "float64"].
+Definition convertible (a b : string) : bool :=
+  (a =? b) || (numeric a && numeric b) || (smem a ints && (b =? "string")).
+(* match.go matchType *)
+Definition match_type (a b : string) : bool * bool :=
+  let same := a =? b in
+  let conv := convertible a b in
+  let mis := ((a =? "string") && smem b fixed_ints) || ((b =? "string") && smem a fixed_ints) in
+  (same, if negb same && conv && mis then false else conv).
+(* ctor.go zeroValue *)
+Definition zero_value (t : string) : string :=
+  if t =? "string" then """""" else if t =? "bool" then "false" else if numeric t then "0"
+  else if has_prefix "*" t || has_prefix "[]" t || has_prefix "map[" t then "nil" else t ++ "{}".
+
+(* match.go canNameMatch (without -i) *)
+Definition can_name_match (f1 f2 : mfield) (tags : list (string * string)) : bool :=
+  if (m_isget f1 && m_isget f2) || (m_isset f1 && m_isset f2) then false
+  else
+    let m1 := matching_name f1 in
+    let m2 := matching_name f2 in
+    let m1 := match alookup m1 tags with Some t => t | None => m1 end in
+    Nat.eqb (String.length m1) (String.length m2) && ((m1 =? m2) || (camel m1 =? camel m2)).
+
+(* ctor.go parseCtors: the parameters of the generated NewT *)
+Definition has_shootnew (v : view) (T : string) : bool := smem (T ++ ".ShootNew") (methods_of v T).
+Definition parse_ctors (v : view) (T : string) : list mfield :=
+  match find (fun d => d_name d =? "New" ++ T) (gen_decls v) with
+  | Some d => match d_kind d with
+              | KCtor ps => map (fun p => match p with
+                                          | (_, ty, field, path) =>
+                                              {| m_name := if is_exported field then field else "Set" ++ pascal field;
+                                                 m_path := [path]; m_ty := ty; m_depth := 0; m_backing := field;
+                                                 m_isget := false; m_isset := false; m_target := None; m_canassign := false;
+                                                 m_isconv := false; m_type := ""; m_func := ""; m_zero := "" |}
+                                          end) ps
+              | _ => []
+              end
+  | None => []
+  end.
+
+(* getsetiface.go ParseGetSetIface *)
+Definition parse_getset_iface (v : view) (T : string) : list (string * string * bool) :=
+  let g := T ++ "Getter" in
+  let s := T ++ "Setter" in
+  (if match find_iface v g with Some _ => assignable v T g | None => false end
+   then filter (fun m : string * string * bool => negb (snd m)) (iface_methods (view_fuel v) v g) else []) +++
+  (if match find_iface v s with Some _ => assignable v T s | None => false end
+   then filter (fun m : string * string * bool => snd m) (iface_methods (view_fuel v) v s) else []).
+
+(* methods.go compatlize *)
+Definition compatlize (fs : list mfield) (ms : list (string * string * bool)) : list mfield :=
+  fs +++ map (fun m : string * string * bool =>
+                let n := fst (fst m) in
+                if snd m
+                then {| m_name := n; m_path := [n]; m_ty := snd (fst m); m_depth := 0; m_backing := trim_prefix "Set" n;
+                        m_isget := false; m_isset := true; m_target := None; m_canassign := false; m_isconv := false;
+                        m_type := ""; m_func := ""; m_zero := "" |}
+                else {| m_name := n; m_path := [n]; m_ty := snd (fst m); m_depth := 0; m_backing := n;
+                        m_isget := true; m_isset := false; m_target := None; m_canassign := false; m_isconv := false;
+                        m_type := ""; m_func := ""; m_zero := "" |}) ms.
+
+(* ctor.go makeCtorMatch (function): returns the parameters, the write set and hasNonZero *)
+Definition ctor_match (exp : list mfield) (params : list mfield) (tags : list (string * string)) (qual : string)
+  (funcs : list (string * string * string)) (wset : list string) : list mfield * list string * bool :=
+  match params with
+  | [] => (params, wset, false)
+  | _ =>
+      let '(ps, ws) :=
+        fold_left (fun a f =>
+          fold_left (fun a pn =>
+            let '(ps, ws) := a in
+            match mget pn ps with
+            | None => a
+            | Some p =>
+                if m_isset f then a
+                else if negb (can_name_match f p tags) then a
+                else if smem (m_name p) ws then a
+                else
+                  let '(same, conv) := match_type (m_ty f) (m_ty p) in
+                  if same then (mupd pn (fun p => mf_set_target (mf_set_assign p) (m_name f)) ps, sadd pn ws)
+                  else if conv then (mupd pn (fun p => mf_set_target (mf_set_conv p (qual ++ m_ty p)) (m_name f)) ps, sadd pn ws)
+                  else
+                    fold_left (fun a fn =>
+                                 match fn with
+                                 | (fname, fparam, fres) =>
+                                     if (fparam =? m_ty f) && (fres =? m_ty p)
+                                     then (mupd pn (fun p => mf_set_target (mf_set_func p fname) (m_name f)) (fst a), sadd pn (snd a))
+                                     else a
+                                 end) funcs a
+            end) (map m_name params) a) exp (params, wset) in
+      let ps' := map (fun p => match m_target p with Some _ => p | None => mf_set_zero p (zero_value (m_ty p)) end) ps in
+      (ps', ws, existsb (fun p => match m_target p with Some _ => true | None => false end) ps')
+  end.
+
+(* pass state of makeTypeMismatch / makeTypeMatch: the two shared field lists, the write-once sets, the read/write maps *)
+Definition pstate := (list mfield * list mfield * list string * list string * list (string * string) * list (string * string))%type.
+
+(* mismatch.go makeFuncMap *)
+Definition func_map (funcs : list (string * string * string)) (n1 n2 : string) (ps : pstate) : pstate :=
+  fst (fold_left (fun (a : pstate * bool) fn =>
+         let '(ps, stop) := a in
+         if stop then a
+         else
+           let '(Sf, Df, ws, wd, rs, wm) := ps in
+           match mget n1 Sf, mget n2 Df, fn with
+           | Some f1, Some f2, (fname, fparam, fres) =>
+               let '(Sf1, D1, wd1, rs1) :=
+                 if negb (smem n2 wd) && negb (m_isget f2) && (fparam =? m_ty f1) && (fres =? m_ty f2)
+                 then (mupd n1 (fun f => mf_set_target f n2) Sf, mupd n2 (fun f => mf_set_func f fname) Df, sadd n2 wd, upsert n1 n2 rs)
+                 else (Sf, Df, wd, rs) in
+               let '(Sf2, D2, ws2, wm2) :=
+                 if negb (smem n1 ws) && negb (m_isget f1) && (fparam =? m_ty f2) && (fres =? m_ty f1)
+                 then (mupd n1 (fun f => mf_set_func f fname) Sf1, mupd n2 (fun f => mf_set_target f n1) D1, sadd n1 ws, upsert n1 n2 wm)
+                 else (Sf1, D1, ws, wm) in
+               let both := match mget n1 Sf2, mget n2 D2 with
+                           | Some g1, Some g2 => match m_target g1, m_target g2 with Some _, Some _ => true | _, _ => false end
+                           | _, _ => false
+                           end in
+               ((Sf2, D2, ws2, wd1, rs1, wm2), both)
+           | _, _, _ => a
+           end) funcs (ps, false)).
+
+Definition for_pairs (tags : list (string * string)) (body : string -> string -> pstate -> pstate) (ps : pstate) : pstate :=
+  let '(S0, D0, _, _, _, _) := ps in
+  fold_left (fun a n1 =>
+    fold_left (fun a n2 =>
+      let '(Sf, Df, _, _, _, _) := a in
+      match mget n1 Sf, mget n2 Df with
+      | Some f1, Some f2 => if can_name_match f1 f2 tags then body n1 n2 a else a
+      | _, _ => a
+      end) (map m_name D0) a) (map m_name S0) ps.
+
+(* match.go makeTypeMatch, one pair *)
+Definition type_match_pair (qual : string) (n1 n2 : string) (ps : pstate) : pstate :=
+  let '(Sf, Df, ws, wd, rs, wm) := ps in
+  match mget n1 Sf, mget n2 Df with
+  | Some f1, Some f2 =>
+      let '(same, conv) := match_type (m_ty f1) (m_ty f2) in
+      let convback := snd (match_type (m_ty f2) (m_ty f1)) in
+      let '(Sf1, D1, wd1, rs1) :=
+        if negb (smem n2 wd) && negb (m_isget f2) then
+          let '(Sf', wd', rs') := if same || conv then (mupd n1 (fun f => mf_set_target f n2) Sf, sadd n2 wd, upsert n1 n2 rs) else (Sf, wd, rs) in
+          (Sf', (if same then mupd n2 mf_set_assign Df else if conv then mupd n2 (fun f => mf_set_conv f (qual ++ m_ty f2)) Df else Df), wd', rs')
+        else (Sf, Df, wd, rs) in
+      if negb (smem n1 ws) && negb (m_isget f1) then
+        let '(D2, ws2, wm2) := if same || convback then (mupd n2 (fun f => mf_set_target f n1) D1, sadd n1 ws, upsert n1 n2 wm) else (D1, ws, wm) in
+        ((if same then mupd n1 mf_set_assign Sf1 else if convback then mupd n1 (fun f => mf_set_conv f (m_ty f1)) Sf1 else Sf1), D2, ws2, wd1, rs1, wm2)
+      else (Sf1, D1, ws, wd1, rs1, wm)
+  | _, _ => ps
+  end.
+
+(* check.go prepareReadPaths *)
+Fixpoint prefixes {A : Type} (l : list A) : list (list A) :=      (* proper, non-empty prefixes, shortest first *)
+  match l with
+  | [] => []
+  | x :: r => match r with [] => [] | _ => [x] :: map (cons x) (prefixes r) end
+  end.
+Definition prepare_read_paths (fs : list mfield) (ptrs : list (string * string)) : list (string * list string) :=
+  fold_left (fun m f =>
+               match m_path f with
+               | _ :: _ :: _ =>
+                   match filter (fun p => ahas p ptrs) (map pkey (prefixes (m_path f))) with
+                   | [] => m
+                   | rp => upsert (m_name f) rp m
+                   end
+               | _ => m
+               end) fs [].
+
+(* types.go Field.CoveredBy *)
+Fixpoint is_prefix_l (p l : list string) : bool :=
+  match p, l with
+  | [], _ :: _ => true
+  | x :: p', y :: l' => (x =? y) && is_prefix_l p' l'
+  | _, _ => false
+  end.
+Fixpoint split_dots_aux (s cur : string) : list string :=
+  match s with
+  | EmptyString => [cur]
+  | String c r => if Ascii.eqb c "."%char then cur :: split_dots_aux r "" else split_dots_aux r (cur ++ String c EmptyString)
+  end.
+Definition split_dots (s : string) : list string := split_dots_aux s "".
+Definition covered_by (f : mfield) (path : string) : bool :=
+  let ps := split_dots path in
+  (pkey (m_path f) =? path) || is_prefix_l ps (m_path f) ||
+  (match m_path f with _ :: _ :: _ => last (m_path f) "" =? last ps "" | _ => false end).
+
+(* check.go nilCheckWrite, one side: for the fields selected by [sel], in order, every pointer path (in map
+   order) that covers the field and is not yet recorded *)
+Definition nil_check_write (o : oracle) (fs : list mfield) (sel : mfield -> bool) (ptrs : list (string * string))
+  : list (string * string) * list string :=
+  let '(m, l) :=
+    fold_left (fun a f =>
+                 if sel f && match m_path f with _ :: _ :: _ => true | _ => false end then
+                   fold_left (fun a pt => if ahas (fst pt) (fst a) then a
+                                          else if covered_by f (fst pt) then (upsert (fst pt) (snd pt) (fst a), snd a +++ [fst pt])
+                                          else a) (o _ ptrs) a
+                 else a) fs ([], []) in
+  (m, sort_strings l).
+
+(* mapper.Generator.MakeData, statement by statement.  hw-side view [v], destination package view [dv] *)
+Definition map_make (o : oracle) (c : cmd) (destpkg : string) (dv : view) (st : mstate) (v : view) (T : string) : mres mdata mstate :=
+  let qual := destpkg ++ "." in
+  (* loadMorePkgs: g.mappingFuncList = nil; an embedded empty struct of the package with methods is the mapper *)
+  let funcs0 : list (string * string * string) := [] in
+  let funcs := match find_struct v T with
+               | Some (_, _, s) =>
+                   fold_left (fun a it => match it with
+                                          | IEmbed n _ _ =>
+                                              match find_struct v n with
+                                              | Some (_, _, ms) =>
+                                                  match ss_items ms with
+                                                  | [] => flat_map (fun x => match x with
+                                                                             | (_, _, HFuncs r fs) => if r =? n then fs else []
+                                                                             | _ => []
+                                                                             end) (hand_decls v)
+                                                  | _ => a
+                                                  end
+                                              | None => a
+                                              end
+                                          | IField _ => a
+                                          end) (ss_items s) funcs0
+               | None => funcs0
+               end in
+  (* parseSrcFields: exportedFields = nil; unexportedFields = nil; srcTagMap = {}; srcPtrTypeMap = {} *)
+  match mparse_fields v "" T true with
+  | None => MFatal                                (* src type not exists *)
+  | Some (exp, unexp, tags, sptr) =>
+      (* parseDestFields *)
+      match mparse_fields dv qual T false with
+      | None => if specified c then MFatal else
+                  MSkip {| ms_data := None; ms_exp := exp; ms_unexp := unexp; ms_dexp := []; ms_dunexp := [];
+                           ms_gsm := ms_gsm st; ms_dgsm := ms_dgsm st; ms_sptr := sptr; ms_dptr := [];
+                           ms_spaths := ms_spaths st; ms_dpaths := ms_dpaths st; ms_funcs := funcs;
+                           ms_wsrc := ms_wsrc st; ms_wdest := ms_wdest st; ms_rsm := ms_rsm st; ms_wsm := ms_wsm st;
+                           ms_tags := tags; ms_sctor := ms_sctor st; ms_dctor := ms_dctor st |}
+      | Some (dexp, dunexp, _, dptr) =>
+          (* parseCtors: g.srcCtorParams = nil; g.destCtorParams = nil; ... *)
+          let sctor := if has_shootnew v T then parse_ctors v T else [] in
+          let dctor := if has_shootnew dv T then parse_ctors dv T else [] in
+          (* parseMethods: g.getsetMethods = nil; g.destGetSetMethods = nil; ... *)
+          let gsm := if has_shootnew v T then parse_getset_iface v T else [] in
+          let dgsm := if has_shootnew dv T then parse_getset_iface dv T else [] in
+          (* parseManual: g.writeSrcSet = {}; g.writeDestSet = {} (no manual methods in this grammar) *)
+          let wsrc0 : list string := [] in
+          let wdest0 : list string := [] in
+          (* makeCompatible *)
+          let exp1 := compatlize exp gsm in
+          let dexp1 := compatlize dexp dgsm in
+          (* makeCtorMatch *)
+          let '(dctor1, wdest1, dnz) := ctor_match exp1 dctor tags qual funcs wdest0 in
+          let '(sctor1, wsrc1, snz) := ctor_match dexp1 sctor [] "" funcs wsrc0 in
+          (* makeTypeMismatch: g.writeSrcMap = {}; g.readSrcMap = {}; then makeTypeMatch *)
+          let ps0 : pstate := (exp1, dexp1, wsrc1, wdest1, [], []) in
+          let ps1 := for_pairs tags (func_map funcs) ps0 in
+          let '(Sf, Df, ws, wd, rs, wm) := for_pairs tags (type_match_pair qual) ps1 in
+          (* makeReadCond / nilCheckRead / nilCheckWrite *)
+          let spaths := prepare_read_paths Sf sptr in
+          let dpaths := prepare_read_paths Df dptr in
+          let srcread := fold_left (fun m f => match alookup (m_name f) rs with
+                                               | Some d => if ahas (m_name f) spaths then upsert (m_name f) d m else m
+                                               | None => m
+                                               end) Sf [] in
+          let destread := fold_left (fun m f => match alookup (m_name f) wm with
+                                                | Some d => if ahas d dpaths then upsert (m_name f) d m else m
+                                                | None => m
+                                                end) Sf [] in
+          let '(sptrmap, sptrlist) := nil_check_write o Sf (fun f => ahas (m_name f) wm) sptr in
+          let '(dptrmap, dptrlist) := nil_check_write o Df (fun f => existsb (fun e => snd e =? m_name f) rs) dptr in
+          let d := {| md_cmd := c_line c; md_type := T; md_dest := T; md_qdest := qual ++ T; md_destpkg := destpkg;
+                      md_toonly := c_toonly c; md_fromonly := c_fromonly c;
+                      md_srcctor := if snz then sctor1 else []; md_destctor := if dnz then dctor1 else [];
+                      md_srcfields := Sf; md_destfields := Df;
+                      md_srcptrmap := sptrmap; md_srcptrlist := sptrlist; md_destptrmap := dptrmap; md_destptrlist := dptrlist;
+                      md_srcread := srcread; md_destread := destread |} in
+          MOk d false
+            {| ms_data := Some d; ms_exp := Sf; ms_unexp := unexp; ms_dexp := Df; ms_dunexp := dunexp; ms_gsm := gsm; ms_dgsm := dgsm;
+               ms_sptr := sptr; ms_dptr := dptr; ms_spaths := spaths; ms_dpaths := dpaths; ms_funcs := funcs;
+               ms_wsrc := ws; ms_wdest := wd; ms_rsm := rs; ms_wsm := wm; ms_tags := tags; ms_sctor := sctor1; ms_dctor := dctor1 |}
+      end
+  end.
+
+(* mapper.tmpl; condofread reads g.srcPathsMap / g.destPathsMap when the template runs *)
+Definition map_render (st : mstate) (d : mdata) : afile :=
+  let T := md_type d in
+  let dp := pascal (md_destpkg d) in
+  let ev (n : string) (isget : bool) := n ++ (if isget then "()" else "") in
+  let cond (paths : list (string * list string)) (n : string) :=
+    join "&&" (sort_strings (match alookup n paths with Some l => l | None => [] end)) in
+  let stmts (fs other : list mfield) (readmap : list (string * string)) (readkey : mfield -> mfield -> string)
+            (paths : list (string * list string)) (condkey : mfield -> string) : list string :=
+    flat_map (fun sf =>
+                match m_target sf with
+                | None => []
+                | Some tn =>
+                    match mget tn other with
+                    | None => ["?" ++ tn]
+                    | Some df =>
+                        (if ahas (readkey sf df) readmap then ["if " ++ cond paths (condkey sf)] else []) +++
+                        (if m_canassign df then [m_name df ++ (if m_isset df then "(" else "=") ++ ev (m_name sf) (m_isget sf)] else []) +++
+                        (if m_isconv df then [m_name df ++ (if m_isset df then "(" else "=") ++ m_type df ++ "(" ++ ev (m_name sf) (m_isget sf) ++ ")"] else []) +++
+                        (if m_func df =? "" then [] else [m_name df ++ (if m_isset df then "(" else "=") ++ m_func df ++ "(" ++ ev (m_name sf) (m_isget sf) ++ ")"])
+                    end
+                end) fs in
+  let ctor_args (ps other : list mfield) : list string :=
+    flat_map (fun p =>
+                if negb (m_zero p =? "") then [m_zero p ++ " //" ++ pkey (m_path p)]
+                else match m_target p with
+                     | None => []
+                     | Some tn =>
+                         match mget tn other with
+                         | None => ["?" ++ tn]
+                         | Some f =>
+                             (if m_canassign p then [ev (m_name f) (m_isget f) ++ " //" ++ pkey (m_path p)] else []) +++
+                             (if m_isconv p then [m_type p ++ "(" ++ ev (m_name f) (m_isget f) ++ ") //" ++ pkey (m_path p)] else []) +++
+                             (if m_func p =? "" then [] else [m_func p ++ "(" ++ ev (m_name f) (m_isget f) ++ ") //" ++ pkey (m_path p)])
+                         end
+                     end) ps in
+  let to_ : list adecl := if md_fromonly d then [] else
+    [{| d_name := T ++ ".To" ++ dp; d_kind := KMethod T; d_doc := true; d_tail := false; d_needs := ["@dest"];
+        d_toks := [md_qdest d] +++
+                  (match md_destctor d with
+                   | [] => "new" :: map (fun p => p ++ ":" ++ match alookup p (md_destptrmap d) with Some t => t | None => "" end) (md_destptrlist d)
+                   | ps => "ctor" :: ctor_args ps (md_srcfields d)
+                   end) +++
+                  stmts (md_srcfields d) (md_destfields d) (md_srcread d) (fun sf _ => m_name sf) (ms_spaths st) m_name |}] in
+  let from_ : list adecl := if md_toonly d then [] else
+    [{| d_name := T ++ ".From" ++ dp; d_kind := KMethod T; d_doc := true; d_tail := false; d_needs := ["@dest"];
+        d_toks := [md_qdest d] +++
+                  (match md_srcctor d with
+                   | [] => "reset" :: map (fun p => p ++ ":" ++ match alookup p (md_srcptrmap d) with Some t => t | None => "" end) (md_srcptrlist d)
+                   | ps => "ctor" :: ctor_args ps (md_destfields d)
+                   end) +++
+                  stmts (md_destfields d) (md_srcfields d) (md_destread d) (fun _ sf => m_name sf) (ms_dpaths st) m_name |}] in
+  mk_file (md_cmd d)
+    (to_ +++ from_ +++
+     [{| d_name := T ++ ".ShootMap"; d_kind := KMethod T; d_doc := true; d_tail := true; d_needs := []; d_toks := [T] |}]).
+
+(* ------------------------------------------------------------------ *)
+(* generatorbase.go Generate, generic in the generator                 *)
+
+Section Loop.
+  Context {St Data : Type}.
+  Variable make : St -> view -> string -> mres Data St.
+  Variable render : St -> Data -> afile.          (* runs on the state MakeData left behind *)
+  Variable list_types : view -> list string.      (* ListTypes of the generator, without the -file filter *)
+  Variable c : cmd.
+  Variable o : oracle.
+  Variable hw : list hfile.
+  Variable disk : gfiles.
+
+  (* confirmTypes: the type list and fileNameMap; None = Fatal *)
+  Definition confirm_types (v : view) : option (list string * list (string * string)) :=
+    if specified c then
+      fold_left (fun a T =>
+                   match a with
+                   | None => None
+                   | Some (ts, fm) =>
+                       let gofile := get_go_file o v T in
+                       if c_file c =? "" then Some (ts, upsert T gofile fm)
+                       else if c_file c =? gofile then Some (ts, fm) else None
+                   end) (c_types c) (Some (c_types c, []))
+    else
+      Some (list_types (filter (fun f => (c_file c =? "") || (fst f =? c_file c)) v), []).
+
+  Fixpoint gen_loop (types : list string) (fmap : list (string * string)) (st : St) (overlay : gfiles)
+           (srcmap : gfiles) (srclist : list afile) : option (gfiles * list afile * gfiles * St) :=
+    match types with
+    | [] => Some (srcmap, srclist, overlay, st)
+    | T :: rest =>
+        let v := mk_view hw disk overlay in
+        match make st v T with
+        | MFatal => None
+        | MSkip st' => gen_loop rest fmap st' overlay srcmap srclist
+        | MOk d stale st' =>
+            let src := render st' d in
+            let fname := file_name c (all_in_one_file c v) fmap T in
+            (* if isStale && i < len(TypeNames)-1 { g.overlay[filename] = src; g.LoadPackage() } *)
+            let overlay' := if stale && match rest with [] => false | _ => true end then upsert fname src overlay else overlay in
+            if separate c then gen_loop rest fmap st' overlay' (upsert fname src srcmap) srclist
+            else gen_loop rest fmap st' overlay' srcmap (srclist +++ [src])
+        end
+    end.
+
+  (* Generate: the source map (file name -> content); None = Fatal *)
+  Definition generate (st0 : St) : option gfiles :=
+    let v0 := mk_view hw disk [] in
+    match confirm_types v0 with
+    | None => None
+    | Some (types, fmap) =>
+        match gen_loop types fmap st0 [] [] [] with
+        | None => None
+        | Some (srcmap, srclist, overlay, _) =>
+            match merge srclist with
+            | None => Some srcmap
+            | Some m =>
+                let v := mk_view hw disk overlay in
+                Some (upsert (file_name c (all_in_one_file c v) fmap "") m srcmap)
+            end
+        end
+    end.
+End Loop.
+
+(* ListTypes of the four generators (package-level declarations of hand-written files; the declarations of
+   generated files are never eligible: _json_T is skipped by its prefix, the rest client struct is not an
+   interface, no generated file declares an integer type or an exported struct) *)
+Definition list_types_of (sc : subcmd) (v : view) : list string :=
+  flat_map (fun x => match x with
+                     | (_, _, HStruct s) =>
+                         match sc with
+                         | CNew => if has_prefix "_" (ss_name s) then [] else [ss_name s]
+                         | CMap => if is_exported (ss_name s) then [ss_name s] else []
+                         | _ => []
+                         end
+                     | (_, _, HInt n) => match sc with CEnum => [n] | _ => [] end
+                     | (_, _, HIface r) => match sc with CRest => [ri_name r] | _ => [] end
+                     | _ => []
+                     end) (hand_decls v).
+
+(* a package directory: hand-written files, files generated by OTHER shoot subcommands (inputs: the
+   constructor/accessors of a shoot-new type the mapper reads), and for `map` the destination package *)
+Record pkg := {
+  p_hw : list hfile;
+  p_aux : gfiles;
+  p_destname : string;
+  p_dest : list hfile;
+  p_destaux : gfiles
+}.
+
+Definition disk_of (p : pkg) (prior : gfiles) : gfiles := overlay_apply (p_aux p) prior.
+
+(* g.Generate(g) of the selected subcommand; [prior] = what earlier runs of this command left on disk *)
+Definition run_generate (o : oracle) (p : pkg) (prior : gfiles) (c : cmd) : option gfiles :=
+  let disk := disk_of p prior in
+  match c_sub c with
+  | CNew => generate (new_make c) (fun _ d => new_render d) (list_types_of CNew) c o (p_hw p) disk nstate0
+  | CEnum => generate (enum_make c) enum_render (list_types_of CEnum) c o (p_hw p) disk estate0
+  | CRest => generate (rest_make o c) (fun _ d => rest_render d) (list_types_of CRest) c o (p_hw p) disk rstate0
+  | CMap => generate (map_make o c (p_destname p) (mk_view (p_dest p) (p_destaux p) [])) map_render
+                     (list_types_of CMap) c o (p_hw p) disk mstate0
+  end.
+
+(* ------------------------------------------------------------------ *)
+(* main.go: write loop and Clean                                       *)
+
+Fixpoint contains_l (sub s : list ascii) : bool :=
+  prefix_l sub s || match s with [] => false | _ :: s' => contains_l sub s' end.
+Definition contains (sub s : string) : bool := contains_l (chars sub) (chars s).
+
+(* generatorbase.go Clean *)
+Definition clean (c : cmd) (aio : string) (dir : gfiles) : gfiles :=
+  if separate c then dir
+  else if aio =? "" then dir
+  else
+    let genfile := file_name c aio [] "" in
+    filter (fun e =>
+              (fst e =? genfile)
+              || negb (contains (".shoot" ++ sub_name (c_sub c)) (fst e) && ends_with ".go" (fst e))
+              || contains "-type=*" (a_cmd (snd e))
+              || negb (has_prefix ("shoot " ++ sub_name (c_sub c) ++ " ") (a_cmd (snd e)))) dir.
+
+Inductive outcome :=
+| OFatal                                  (* exit 1, the directory is untouched *)
+| ODone (written : list string) (dir : gfiles).   (* exit 0: names written (in write order), generated files now in the directory *)
+
+(* one process execution.  The generated files of this command that are in the directory before: [prior]. *)
+Definition run (o : oracle) (p : pkg) (prior : gfiles) (c : cmd) : outcome :=
+  match run_generate o p prior c with
+  | None => OFatal
+  | Some srcmap =>
+      let order := o _ srcmap in                     (* for fname, src := range srcMap *)
+      let dir := fold_left (fun d e => upsert (fst e) (snd e) d) order prior in
+      match srcmap with
+      | [] => ODone [] dir                           (* "nothing generated": no Clean *)
+      | _ => ODone (map fst order)
+                   (clean c (all_in_one_file c (mk_view (p_hw p) (disk_of p prior) [])) dir)
+      end
+  end.
+
+(* what `ls` + `cat` of the generated files shows *)
+Definition listing (dir : gfiles) : gfiles := sort_by_key fst dir.
+Definition out_listing (r : outcome) : option gfiles :=
+  match r with OFatal => None | ODone _ dir => Some (listing dir) end.
